@@ -262,6 +262,32 @@ pub async fn run_rounds<T: Transport + 'static>(
 
 /// Run one case on its transport; returns what the client saw and the peer's marks.
 pub fn run_case(case: &Case, plan: &Plan) -> Result<(ClientObs, Marks), String> {
+    let (c, script, expected) = (case.clone(), plan.script.clone(), plan.expected.clone());
+    let limit = Duration::from_secs(40 + 10 * case.rounds.len() as u64);
+    match crate::core::with_watchdog(limit, move || {
+        let plan = Plan {
+            script,
+            expected,
+            in_delimiter_splits: 0,
+            multi_message_units: 0,
+        };
+        run_case_inner(&c, &plan)
+    }) {
+        Some(r) => r,
+        None => Ok((
+            ClientObs {
+                established: Some(Err("TIMEOUT".into())),
+                ..ClientObs::default()
+            },
+            Marks {
+                error: Some("the client thread never returned (it loops without yielding)".into()),
+                ..Marks::default()
+            },
+        )),
+    }
+}
+
+fn run_case_inner(case: &Case, plan: &Plan) -> Result<(ClientObs, Marks), String> {
     let rt = tokio::runtime::Builder::new_multi_thread()
         .worker_threads(2)
         .enable_all()
